@@ -212,3 +212,80 @@ Proof.
   - destruct (has a FLAG_SIZE); intros H; inversion H. now split.
   - destruct (any_step a); intros H; inversion H. reflexivity.
 Qed.
+
+(* ---- the handle table ------------------------------------------------------------------------ *)
+Lemma ht_find_in l h v : ht_find l h = Some v -> In (h, v) l.
+Proof.
+  induction l as [|[k w] l IH]; cbn; [discriminate|].
+  destruct (k =? h) eqn:E; intros H.
+  - apply Z.eqb_eq in E. inversion H. subst. now left.
+  - right. now apply IH.
+Qed.
+
+Lemma ht_find_filter l h h' :
+  h' <> h -> ht_find (filter (fun e => negb (fst e =? h')) l) h = ht_find l h.
+Proof.
+  intros Hne. induction l as [|[k w] l IH]; [reflexivity|]. cbn [filter fst].
+  destruct (k =? h') eqn:E1; cbn [negb].
+  - apply Z.eqb_eq in E1. subst k. cbn [ht_find]. destruct (h' =? h) eqn:E2; [apply Z.eqb_eq in E2; contradiction|].
+    exact IH.
+  - cbn [ht_find]. destruct (k =? h); [reflexivity|exact IH].
+Qed.
+
+Lemma ht_inv_new : ht_inv ht_new.
+Proof. intros k v H. destruct H. Qed.
+
+Lemma ht_inv_step t o : ht_inv t -> ht_inv (ht_step t o).
+Proof.
+  intros Hi. destruct o as [fid|h]; intros k v Hin; cbn in *.
+  - destruct Hin as [E|Hin]; [inversion E; lia|]. specialize (Hi k v Hin). lia.
+  - apply filter_In in Hin as [Hin _]. exact (Hi k v Hin).
+Qed.
+
+Lemma ht_lookup_step t o h fid :
+  ht_inv t -> ht_lookup t h = Some fid -> o <> HClose h -> ht_lookup (ht_step t o) h = Some fid.
+Proof.
+  intros Hi Hl Hne. unfold ht_lookup in *. destruct o as [f|h']; cbn.
+  - pose proof (Hi h fid (ht_find_in _ _ _ Hl)) as Hlt.
+    destruct (ht_next t =? h) eqn:E; [lia|exact Hl].
+  - rewrite ht_find_filter; [exact Hl|]. intros ->. now apply Hne.
+Qed.
+
+(* a live handle keeps naming the file it was opened on, whatever else is opened or closed *)
+Lemma handle_stable : forall ops t h fid,
+  ht_inv t -> ht_lookup t h = Some fid -> ~ In (HClose h) ops ->
+  ht_lookup (fold_left ht_step ops t) h = Some fid.
+Proof.
+  induction ops as [|o ops IH]; intros t h fid Hi Hl Hn; [exact Hl|].
+  cbn [fold_left]. apply IH.
+  - now apply ht_inv_step.
+  - apply ht_lookup_step; [exact Hi|exact Hl|]. intros ->. apply Hn. now left.
+  - intros Hin. apply Hn. now right.
+Qed.
+
+Lemma handle_fresh t fid : ht_inv t -> ht_lookup t (ht_next t) = None /\
+  ht_lookup (ht_open t fid) (ht_next t) = Some fid.
+Proof.
+  intros Hi. split.
+  - unfold ht_lookup. destruct (ht_find (ht_entries t) (ht_next t)) eqn:E; [|reflexivity].
+    pose proof (Hi _ _ (ht_find_in _ _ _ E)). lia.
+  - unfold ht_lookup. cbn. now rewrite Z.eqb_refl.
+Qed.
+
+Lemma reachable_inv ops : ht_inv (fold_left ht_step ops ht_new).
+Proof.
+  assert (G : forall ops t, ht_inv t -> ht_inv (fold_left ht_step ops t)).
+  { induction ops0 as [|o ops0 IH]; intros t Hi; [exact Hi|]. cbn. apply IH. now apply ht_inv_step. }
+  apply G, ht_inv_new.
+Qed.
+
+Lemma handle_fresh_reachable ops fid :
+  let t := fold_left ht_step ops ht_new in
+  ht_lookup t (ht_next t) = None /\ ht_lookup (ht_open t fid) (ht_next t) = Some fid.
+Proof. apply handle_fresh, reachable_inv. Qed.
+
+Lemma handle_stable_reachable ops0 ops h fid :
+  let t := fold_left ht_step ops0 ht_new in
+  ht_lookup t h = Some fid -> ~ In (HClose h) ops ->
+  ht_lookup (fold_left ht_step ops t) h = Some fid.
+Proof. intros t. apply handle_stable, reachable_inv. Qed.
